@@ -41,7 +41,9 @@ def register(reg, S):
             ghost_results=GH_SHAPES,
             ensures=dispatcher_clauses(reg, paths, lists, "len(lines)"),
             ghosts=[Ghost(anchor, GH_CODE)],
-            props=["C07", "C08", "C09", "C14"]))
+            # (tag audit, round 8) which data reach which builder is part of every statement about the
+            # events of a section: the note family, the tempo map (C01, C15)
+            props=["C07", "C08", "C09", "C14"] + {"sync": ["C01", "C15"], "instrument": ["C02", "C03", "C04", "C05"], "globalevents": []}[label]))
 
     # ------------------------------------------------------------------ SyncTrack.from_chart_lines
     B, TSK, A = SECTIONS["sync"][0]
